@@ -26,6 +26,21 @@ def scenarios(ctx, thorough):
     for a, b in pairs[: (300 if thorough else 24)]:
         sid += 1
         scs.append(S.mk(sid, "push-%s-%s" % (a, b), "robust", [P(90), {"a": "Push", "what": a}, {"a": "Push", "what": b}, {"a": "Settle"}, P(91), {"a": "Settle"}]))
+    # an item the client cannot use inside a container with results: the results must still reach their callers
+    for junk in S.JUNK:
+        for at in ("first", "last"):
+            sid += 1
+            scs.append(S.mk(sid, "container-%s-%s" % (junk, at), "robust",
+                            [P(90), S.call("c1", 11), S.call("c2", 12),
+                             {"a": "Answer", "tags": [11, 12], "container": True, "junk": junk, "junkat": at, "n": 400},
+                             {"a": "Drain"}, P(91), {"a": "Settle"}]))
+    # behaviours of Client.tla with junk items (tlc -simulate): callers, rotations, containers holding an item nobody waits for
+    import random as _r
+    rng2 = _r.Random(ctx.seed + 160)
+    hists = [h for h in S.tlc_schedules(ctx, "ClientGenJunk.cfg", 400 if thorough else 60) if any(x.get("junk") for x in h)]
+    for h in hists[: (200 if thorough else 20)]:
+        sid += 1
+        scs.append(S.mk(sid, "tlc-junk", "robust", S.project(h, rng2, S.ALL_KINDS), gates=["send.genid"]))
     # orderly close between messages, then a probe: reconnect with the same key
     for w in [None] + (ALPHABET if thorough else ALPHABET[:8]):
         sid += 1
@@ -37,12 +52,16 @@ def scenarios(ctx, thorough):
 def run(ctx):
     thorough = ctx.tier == "thorough"
     mc = model_check(ctx, False)
+    mj = C.run_tlc(ctx, "Client", "ClientJunk.cfg", workers=C.NCPU, timeout=1800, tag="ClientJunk.cfg")
+    C.run_tlc(ctx, "Client", "ClientDevAbortContainerLive.cfg", workers=4, expect_violation=True, timeout=600, tag="sensitivity:AbortContainerOnItemError")
     scs = scenarios(ctx, thorough)
     st = S.judge(ctx, scs, S.K_LIVE | S.K_CONN | S.K_RESULT, "robust", batch=4)
     C.write_evidence(ctx, "model_checking", {
-        "states": mc.distinct, "transitions": mc.generated, "traces_validated_against_impl": st["scenarios"],
+        "states": mc.distinct + mj.distinct, "transitions": mc.generated + mj.generated, "traces_validated_against_impl": st["scenarios"],
         "evaluations": st["events"], "distinct_nontrivial": st["scenarios"],
-        "rule": "Client.tla: the loop never blocks on a hand-over nobody takes and keeps reading (NoStall*, LoopKeepsReading); histories over "
+        "rule": "Client.tla: the loop never blocks on a hand-over nobody takes and keeps reading (NoStall*, LoopKeepsReading), also when "
+                "containers hold an item nobody waits for (ClientJunk.cfg; AbortContainerOnItemError must stall a caller); behaviours of that "
+                "model replayed, junk items of four kinds first / last in a container with live results; histories over "
                 "a 22-member server alphabet (every MTProto service constructor, API objects as updates, unknown / truncated / empty bodies, "
                 "empty and nested containers, unsolicited and repeated results, bad_msg_notification, transport error code, garbage and "
                 "short frames), singly (with and without warning channel + handler), in seeded pairs, and orderly close at message "
